@@ -2,6 +2,7 @@ import UtilModel.Core.Driver
 import UtilModel.CSync.Mutex
 import UtilModel.CSync.RWMutex
 import UtilModel.CSync.Monitors
+import UtilModel.Codec.Monitors
 /-! Registry of the models the driver can decide histories for. One line per model. -/
 namespace UtilModel
 
@@ -10,7 +11,8 @@ def csyncMons : List (MonEntry CSync.Obs) :=
 
 def registry : List Entry := [
   mkEntry "csync-rw" CSync.RW.model CSync.Obs.parse csyncMons,
-  mkEntry "csync-mutex" CSync.Mx.model CSync.Obs.parse csyncMons
+  mkEntry "csync-mutex" CSync.Mx.model CSync.Obs.parse csyncMons,
+  mkEntry "codec" Codec.model Codec.Obs.parse [MonEntry.ofMonitor "C19" Codec.monC19]
 ]
 
 end UtilModel
